@@ -61,6 +61,7 @@ package redis
 //@   modifies nothing
 //@   ensures @too-short len(raw.body.Array) < 2 ==> result1 != nil
 //@   ensures @parsed result1 == nil ==> result0 != nil && result0.raw == raw && len(raw.body.Array) >= 2
+//@   ensures @every-scan-with-a-decimal-cursor-is-accepted-whatever-its-options len(raw.body.Array) >= 2 && wellformed(str(raw.body.Array[1].Text)) && len(raw.body.Array[1].Text) < 19 ==> result1 == nil
 
 //@ func handleScan
 //@   prop C18 C11 C02 C01
@@ -447,6 +448,8 @@ package redis
 //@   callpre RegisterHook @the-request-is-counted-before-its-completion-hooks-are-registered statval[p.stats.Downstream.RqTotal] >= uint64(old(statval[p.stats.Downstream.RqTotal]) + 1) || statval[p.stats.Downstream.RqTotal] < old(statval[p.stats.Downstream.RqTotal])
 //@   requires p != nil && req != nil && req.body != nil
 //@   requires @handlers-wellformed forall k string :: has(p.cmdHdlrs, k) ==> p.cmdHdlrs[k] != nil
+//@   callpre SetResponse @a-request-answered-here-has-touched-no-per-command-counter forall c loc :: c != p.stats.Downstream.RqTotal ==> statval[c] == old(statval[c])
+//@   callpre field:commandHandler.handle @the-command-is-counted-and-its-completion-hook-registered-before-it-is-handled len(req.hooks) == old(len(req.hooks)) + 2 && (hdlr.stats.Total != p.stats.Downstream.RqTotal ==> statval[hdlr.stats.Total] == uint64(old(statval[hdlr.stats.Total]) + 1))
 //@   callpre field:commandHandler.handle @dispatch-only-registered-commands-on-validated-requests validbody(req.body) && has(p.cmdHdlrs, lower(str(req.body.Array[0].Text)))
 //@   nocall MakeRequest
 
@@ -581,6 +584,7 @@ package redis
 //@ func (*upstream).handleRedirection
 //@   prop C04 C11 C02 C07
 //@   alsoprop C01 C03 : tokens malformed-redirection-is-not-forwarded
+//@   alsoprop C12 : moved-is-resent-once-to-the-named-node ask-sends-asking-then-the-command-to-the-named-node
 //@   consumes req
 //@   requires u != nil && req != nil && resp != nil && req.body != nil && len(req.body.Array) >= 1
 //@   requires @only-called-for-moved-or-ask nfields(str(resp.Text), " ") >= 1 ==> lower(field(str(resp.Text), " ", 0)) == "moved" || lower(field(str(resp.Text), " ", 0)) == "ask"
@@ -935,11 +939,13 @@ package redis
 //@   ensures @append-only wlen[e.bw] >= old(wlen[e.bw]) && forall k int :: k < old(wlen[e.bw]) ==> wrote[e.bw][k] == old(wrote[e.bw][k])
 //@   ensures @other-writers-untouched forall x loc :: x != e.bw ==> wlen[x] == old(wlen[x]) && wrote[x] == old(wrote[x])
 //@   ghostdef (forall x loc :: encn[x] == old(encn[x]) + ite(x == e, 1, 0)) && (forall x loc :: enclast[x] == ite(x == e, v, old(enclast[x])))
+//@   ensures @a-failed-write-is-latched result != nil ==> e.err != nil
 
 //@ func (*encoder).Flush
 //@   prop C10 C01 C02
 //@   alsoprop C11 : no-panic
 //@   modifies e.err
+//@   ensures @a-failed-flush-is-latched result != nil ==> e.err != nil
 
 // ---- C19: the proxy sizes its hot key collector with a positive capacity ------------------------------
 
@@ -985,6 +991,7 @@ package redis
 //@   callpre Encode @the-reply-of-the-next-queued-request arg0 == s.enc && arg1 == req.resp && req == sentat(s.processingReqs, recvcount(s.processingReqs) - 1) && encn[s.enc] - old(encn[s.enc]) == recvcount(s.processingReqs) - old(recvcount(s.processingReqs)) - 1
 //@   loop 0 invariant encn[s.enc] - old(encn[s.enc]) == recvcount(s.processingReqs) - old(recvcount(s.processingReqs))
 //@   ensures @never-more-replies-than-requests encn[s.enc] - old(encn[s.enc]) <= recvcount(s.processingReqs) - old(recvcount(s.processingReqs))
+//@   ensures @the-writer-stops-only-when-the-session-quits-or-a-write-failed waitedfor(s.quit) || s.enc.err != nil
 
 // ---- C20: request counters: one "total" per request when it arrives, one of success/failure when it completes ----
 
@@ -995,6 +1002,16 @@ package redis
 //@   requires @distinct-counters deref(p).stats.Downstream.RqFailureTotal != deref(p).stats.Downstream.RqSuccessTotal && deref(p).stats.Downstream.RqTotal != deref(p).stats.Downstream.RqSuccessTotal && deref(p).stats.Downstream.RqTotal != deref(p).stats.Downstream.RqFailureTotal
 //@   modifies statval
 //@   ensures @exactly-one-of-success-or-failure statval[deref(p).stats.Downstream.RqFailureTotal] == uint64(old(statval[deref(p).stats.Downstream.RqFailureTotal]) + ite(req.resp.Type == 45, 1, 0)) && statval[deref(p).stats.Downstream.RqSuccessTotal] == uint64(old(statval[deref(p).stats.Downstream.RqSuccessTotal]) + ite(req.resp.Type == 45, 0, 1)) && statval[deref(p).stats.Downstream.RqTotal] == old(statval[deref(p).stats.Downstream.RqTotal])
+
+//@ func (*redisProc).handleRequest$2
+//@   prop C20
+//@   alsoprop C11 : no-panic
+//@   requires req != nil && req.resp != nil && deref(cmdStats) != nil && deref(p) != nil && deref(p).stats != nil && deref(p).cfg != nil
+//@   requires @distinct-counters deref(cmdStats).Error != deref(cmdStats).Success && deref(cmdStats).Total != deref(cmdStats).Success && deref(cmdStats).Total != deref(cmdStats).Error
+//@   let cSlow = scopectr(deref(p).stats.Scope, "rq_slow_total")
+//@   requires @the-slow-request-counter-is-none-of-them cSlow != deref(cmdStats).Error && cSlow != deref(cmdStats).Success && cSlow != deref(cmdStats).Total
+//@   modifies statval
+//@   ensures @exactly-one-of-success-or-error-per-completed-command statval[deref(cmdStats).Error] == uint64(old(statval[deref(cmdStats).Error]) + ite(req.resp.Type == 45, 1, 0)) && statval[deref(cmdStats).Success] == uint64(old(statval[deref(cmdStats).Success]) + ite(req.resp.Type == 45, 0, 1)) && statval[deref(cmdStats).Total] == old(statval[deref(cmdStats).Total])
 
 //@ func (*rawRequest).Duration
 //@   prop C20
@@ -1407,3 +1424,37 @@ package redis
 //@   assume @ret forall x *simpleRequest :: x != nil && x.body != nil ==> x.body == old(x.body) && len(x.body.Array) == old(len(x.body.Array))
 //@   ensures @the-latch-is-closed-last closed(r.done)
 //@   loop 0 assume r.hooks == old(r.hooks) && len(r.hooks) == old(len(r.hooks)) && r.resp == v && r.done == old(r.done) && (forall k int :: 0 <= k && k < len(r.hooks) ==> r.hooks[k] != nil)
+
+// ---- C13: every backend connection gets the hot-key filter and then the compression filter, whatever the
+// compression setting is when it is created: the filter reads the shared, hot-updatable config per request,
+// so stored values are still inflated after compression has been switched off ---------------------------------
+
+//@ func newCompressFilter
+//@   prop C13
+//@   alsoprop C11 : no-panic
+//@   modifies nothing
+//@   ensures @a-compress-filter-over-the-shared-config typeis(result, "*compressFilter") && ifaceptr(result, "*compressFilter") != nil && fresh(ifaceptr(result, "*compressFilter")) && ifaceptr(result, "*compressFilter").cfg == cfg
+
+//@ func newRequestFilterChain
+//@   prop C13
+//@   alsoprop C11 : no-panic
+//@   modifies nothing
+//@   ensures @empty result != nil && fresh(result) && len(result.filters) == 0 && cap(result.filters) == 4 && fresh(result.filters)
+
+//@ func (*FilterChain).AddFilter
+//@   prop C13
+//@   alsoprop C11 : no-panic
+//@   requires c != nil
+//@   modifies c.filters, c.filters[len(c.filters):cap(c.filters)]
+//@   ensures @appended-last len(c.filters) == old(len(c.filters)) + 1 && c.filters[old(len(c.filters))] == f && forall k int :: 0 <= k && k < old(len(c.filters)) ==> c.filters[k] == old(c.filters[k])
+//@   ensures @in-place-while-there-is-room old(len(c.filters) < cap(c.filters)) ==> base(c.filters) == old(base(c.filters)) && off(c.filters) == old(off(c.filters)) && cap(c.filters) == old(cap(c.filters))
+
+//@ func (*client).initFilters
+//@   prop C13
+//@   alsoprop C11 : no-panic
+//@   alsoprop C19 : hotkey-filter-then-compress-filter-unconditionally
+//@   requires c != nil
+//@   modifies c.filter
+//@   ensures @hotkey-filter-then-compress-filter-unconditionally result == nil && c.filter != nil && len(c.filter.filters) == 2 && typeis(c.filter.filters[0], "*hotKeyFilter") && typeis(c.filter.filters[1], "*compressFilter") && ifaceptr(c.filter.filters[0], "*hotKeyFilter") != nil && ifaceptr(c.filter.filters[1], "*compressFilter") != nil && ifaceptr(c.filter.filters[1], "*compressFilter").cfg == c.cfg && ifaceptr(c.filter.filters[0], "*hotKeyFilter").counter == c.keyCounter
+//@   loop 0 invariant @built-in-order chain != nil && fresh(chain) && fresh(chain.filters) && fresh(filters) && disjoint(filters, chain.filters) && len(chain.filters) == rangeindex + 1 && cap(chain.filters) == 4 && len(filters) == 2 && forall k int :: 0 <= k && k <= rangeindex ==> chain.filters[k] == filters[k]
+//@   loop 0 invariant @the-two-filters typeis(filters[0], "*hotKeyFilter") && typeis(filters[1], "*compressFilter") && ifaceptr(filters[0], "*hotKeyFilter") != nil && ifaceptr(filters[1], "*compressFilter") != nil && ifaceptr(filters[1], "*compressFilter").cfg == c.cfg && ifaceptr(filters[0], "*hotKeyFilter").counter == c.keyCounter
